@@ -142,15 +142,21 @@ structure RecLP where
   solveRes : Int
   obj : List (Nat × Rat)
   rows : List (List (Nat × Rat) × Nat × Rat)
+  results : List Int        -- result of every ::solve call, in order
+  point : List Rat          -- all columns of the point LP::solve read (empty unless the last result was 0/1)
 
 def pEnt : P (Nat × Rat) := do let c ← P.nat; let q ← P.q; pure (c, q)
 def pRec : P RecLP := do
   let ncols ← P.int; let nunb ← P.nat; let minim ← P.int; let solves ← P.nat; let solveRes ← P.int
   let obj ← P.list pEnt
   let rows ← P.list (do let e ← P.list pEnt; let rel ← P.nat; let rhs ← P.q; pure (e, rel, rhs))
-  pure ⟨ncols, nunb, minim, solves, solveRes, obj, rows⟩
+  let results ← P.list P.int
+  let point ← P.qs
+  pure ⟨ncols, nunb, minim, solves, solveRes, obj, rows, results, point⟩
 
 /-! ## comparison of the generated LP with the recorded one -/
+
+def maxAbs (l : List Rat) : Rat := l.foldl (fun m q => if m < absQ q then absQ q else m) 0
 
 def insEnt (e : Nat × Rat) : List (Nat × Rat) → List (Nat × Rat)
   | [] => [e]
@@ -175,8 +181,25 @@ def rowsDiff : Nat → List CRow → List (List (Nat × Rat) × Nat × Rat) → 
     else rowsDiff (i+1) ms rs
   | i, ms, rs => some s!"row_count model={i + ms.length} impl={i + rs.length}"
 
-def lpDiff (comp : String) (v : Verdict) (gen : List CRow × Nat) (obj : List (Nat × Rat)) (rec : RecLP) : Verdict :=
-  let v := v.diffIf (rec.solves != 1) s!"{comp}.lp solve_calls={rec.solves}"
+def lpDiff (comp : String) (v : Verdict) (gen : List CRow × Nat) (obj : List (Nat × Rat)) (rec : RecLP) (gotPoint : Bool) (w : List Rat) : Verdict :=
+  -- LP::solve's control flow (model `lpSolveTraceOk`, result codes from the translator) against the recorded ::solve calls
+  let v := v.diffIf (!lpSolveTraceOk AITB.Gen.lpRetryCodes AITB.Gen.lpAcceptCodes rec.results gotPoint || rec.solves != rec.results.length)
+    s!"LpSolveWrapper.solve call_trace results={rec.results} returned_point={gotPoint} retry_codes={AITB.Gen.lpRetryCodes} accept_codes={AITB.Gen.lpAcceptCodes}"
+  let v := { v with tag := v.tag ++ (if rec.results.length > 1 then " lp_retry" else "") }
+  -- the point lp_solve handed back (all columns): right length, its first columns ARE the returned weights, and it satisfies
+  -- every row lp_solve was given (so a wrong answer is attributed: lp_solve's point vs the rows the library built)
+  let v := v.diffIf (gotPoint && rec.point.length != gen.2) s!"LpSolveWrapper.solve point_length={rec.point.length} columns={gen.2}"
+  let v := v.diffIf (gotPoint && rec.point.take w.length != w) s!"LpSolveWrapper.solve returned_vector_is_not_the_leading_columns_of_the_point"
+  let ptol := (1 / 10^6) * (1 + maxAbs rec.point)
+  -- against the rows lp_solve actually RECEIVED (so the verdict is about lp_solve / the wrapper); recorded = generated is the row diff below,
+  -- and with no diff `accepted_point_certifies_bellman` applies to this point
+  let lhsOf := fun (ent : List (Nat × Rat)) => ent.foldl (fun acc e => acc + e.2 * rec.point.getD e.1 0) 0
+  let rowBad := fun (r : List (Nat × Rat) × Nat × Rat) =>
+    let l := lhsOf r.1
+    if r.2.1 == 1 then decide (l > r.2.2 + ptol) else if r.2.1 == 2 then decide (l < r.2.2 - ptol) else decide (absQ (l - r.2.2) > ptol)
+  let v := match (if gotPoint && (rec.point.length : Int) == rec.ncols then rec.rows.zipIdx.find? (fun (r, _) => rowBad r) else none) with
+    | some (r, i) => v.failIf true s!"LpSolveWrapper accepted_point_violates_row row={i} lhs={ratStr (lhsOf r.1)} rel={r.2.1} rhs={ratStr r.2.2} results={rec.results}"
+    | none => v
   let v := v.diffIf (rec.ncols != (gen.2 : Int)) s!"{comp}.lp columns model={gen.2} impl={rec.ncols}"
   let v := v.diffIf (rec.nunb != gen.2) s!"{comp}.lp unbounded_columns model={gen.2} impl={rec.nunb}"
   let v := v.diffIf (rec.minim != 1) s!"{comp}.lp not_minimising {rec.minim}"
@@ -187,8 +210,6 @@ def lpDiff (comp : String) (v : Verdict) (gen : List CRow × Nat) (obj : List (N
   | none => v
 
 def tol7 : Rat := 1 / 10^7
-
-def maxAbs (l : List Rat) : Rat := l.foldl (fun m q => if m < absQ q then absQ q else m) 0
 
 /-! ## `flp S addConst C b | (some w | none - | err cls) | rec` -/
 def flp : P String := do
@@ -203,7 +224,7 @@ def flp : P String := do
   let v : Verdict := { tag := (if (allActs S).length ≤ 1 then "trivial " else "") ++ "flp" ++ (if addConst then " const" else "") ++ (if C.isEmpty then " nobasis" else "") }
   -- model of the constraint generation vs the LP the library built
   let phi := flpPhi C addConst
-  let v := lpDiff "FactoredLP" v (flpGenD AITB.Gen.flpEmptyConstDelegates S C b addConst) [(phi, 1)] rec
+  let v := lpDiff "FactoredLP" v (flpGenD AITB.Gen.flpEmptyConstDelegates S C b addConst) [(phi, 1)] rec (st == "some") w
   match simplex n rows c with
   | .fuel => return "skip simplex_fuel"
   | .infeasible => return "skip flat_lp_without_optimum"       -- cannot happen: φ large is feasible, φ ≥ 0
@@ -216,7 +237,8 @@ def flp : P String := do
       -- lp_solve's own NUMFAILURE / ACCURACYERROR on an instance with coefficients below 1e-5 (the "ugly" stream) is the
       -- ill-conditioning that stream is meant to probe, not a verdict; on any other instance it is a failing input
       if numfail && tiny then return "skip ill_conditioned" else
-      let kind := if numfail then "lp_solve_numerical_failure" else "no_solution"
+      -- the lp_solve kind is used only when the recorded LP is, row by row, the generated one (a known lp_solve finding must not mask a wrong LP)
+      let kind := if numfail && v.diffs.isEmpty then "lp_solve_numerical_failure" else "no_solution"
       return (v.failIf true s!"FactoredLP {kind} status={st} lp_solve_result={rec.solveRes} flat_optimum={ratStr opt}").render
     let v := v.failIf (w.length != n - 1) s!"FactoredLP wrong_weight_count {w.length}"
     let phiW := flpMaxErr S C b addConst w
@@ -224,10 +246,19 @@ def flp : P String := do
     -- coefficients of magnitude < 1e-5 (the "ugly" stream) put the instance below lp_solve's own accuracy (LP::getPrecision = 5e-7):
     -- a gap between 1e-7 and 1e-5 is then reported as ill-conditioned, not as a verdict
     let gap := phiW - opt
+    -- φ is in the units of the target: with data above 2^6 (round-3 streams scale bases and targets by up to 2^16) the tolerance is
+    -- relative to the magnitude of the terms of Σ w C − b, as lp_solve's own accuracy is; small data keeps 1e-7·(1+|opt|)
+    let mag := (maxAbs (b.flatMap (·.vals))) + maxAbs w * maxAbs (C.flatMap (·.vals))
+    let sc := 1 + absQ opt + (if decide (mag > 64) then mag else 0)
     -- … or the (certified or returned) weights are of order > 1e6, where a 1e-7 absolute tolerance on φ is below double precision
     let blown := decide (maxAbs w > 10^6) || decide (maxAbs x > 10^6)
-    if tiny && decide (gap > tol7 * (1 + absQ opt)) && (decide (gap ≤ (1 / 10^5) * (1 + absQ opt)) || blown) then return "skip ill_conditioned" else
-    let v := v.failIf (decide (gap > tol7 * (1 + absQ opt))) s!"FactoredLP {kind} maxerr={ratStr phiW} flat_optimum={ratStr opt}"
+    if tiny && decide (gap > tol7 * sc) && (decide (gap ≤ (1 / 10^5) * sc) || blown) then return "skip ill_conditioned" else
+    -- the φ column of the point lp_solve returned bounds the TRUE max-norm error of the returned weights (`factoredLP_equiv`: the
+    -- rows force φ ≥ |Σ w C(s) − b(s)| at every joint s); a φ below it means some joint assignment is covered by no constraint
+    let phiLP := rec.point.getD phi 0
+    let v := v.failIf (rec.point.length > phi && decide (phiW > phiLP + (1 / 10^6) * sc))
+      s!"FactoredLP lp_phi_below_true_error phi_column={ratStr phiLP} maxerr={ratStr phiW}"
+    let v := v.failIf (decide (gap > tol7 * sc)) s!"FactoredLP {kind} maxerr={ratStr phiW} flat_optimum={ratStr opt}"
     return v.render
 
 def basisMClose (a b : BasisM) : Bool :=
@@ -268,7 +299,7 @@ def mdp : P String := do
   -- hypothesis `NoTiny` (no entry in (0, 1e-6]) — only reported
   let tiny := (h.any (fun f => f.vals.any (fun q => isZeroSmall q && q != 0))) || ((gModel ++ R).any (fun f => f.vals.any (fun q => isZeroSmall q && q != 0)))
   let v := { v with tag := v.tag ++ (if tiny then " tiny_entries" else "") }
-  let v := lpDiff "LinearProgramming" v gen ((mdpStatedObj h).zipIdx.map (fun (q, i) => (i, q))) rec
+  let v := lpDiff "LinearProgramming" v gen ((mdpStatedObj h).zipIdx.map (fun (q, i) => (i, q))) rec (st == "some") w
   -- the objective the code states (Σ_k mean(h_k.values) w_k) is the flat objective Σ_s V_w(s)/|S|: decided exactly here
   let v := v.diffIf (mdpFlatObj S h != c) "LinearProgramming.lp stated_objective_is_not_the_uniform_flat_objective"
   let sfx := if multi then "_multi_component" else ""
@@ -292,13 +323,26 @@ def mdp : P String := do
     let opt := dualVal rows y
     if st != "some" then
       -- lp_solve's own numerical failure codes (NUMFAILURE 5, ACCURACYERROR 25) are a different clause than a wrong LP
-      let kind := if rec.solveRes == 5 || rec.solveRes == 25 then "lp_solve_numerical_failure" else s!"spurious_infeasible{sfx}"
+      -- … and so is UNBOUNDED (3) / INFEASIBLE (2) reported for an LP that is, row by row, the generated one (no diff so far): by
+      -- `mdpLP_same_optimum` that LP has the certified flat optimum, so lp_solve's answer is wrong, not the construction.  With a
+      -- diff the kind stays `spurious_infeasible` (a known lp_solve finding must not mask a wrong LP).
+      let lpSame := v.diffs.isEmpty
+      let kind := if rec.solveRes == 5 || rec.solveRes == 25 then "lp_solve_numerical_failure"
+                  else if lpSame && (rec.solveRes == 3 || rec.solveRes == 2) then "lp_solve_wrong_unbounded_or_infeasible"
+                  else s!"spurious_infeasible{sfx}"
       return (v.failIf true s!"LinearProgramming {kind} status={st} lp_solve_result={rec.solveRes} flat_optimum={ratStr opt}").render
     let v := v.failIf (w.length != n) s!"LinearProgramming wrong_weight_count {w.length}"
     let scale := 1 + maxAbs w
     let v := match rows.find? (fun r => !r.satB n (tol7 * scale) w) with
       | some r => v.failIf true s!"LinearProgramming bellman_constraint_violated{sfx} rhs={ratStr r.rhs} lhs={ratStr (r.val n w)}"
       | none => v
+    -- the final columns of the point lp_solve returned dominate the TRUE maximum of R + γ P V_w − V_w over the joint space (`genLoop_spec`
+    -- soundness: the rows force Σ finals ≥ that expression at every joint (s, a)); a smaller sum means some joint assignment is covered by
+    -- no chain of constraints — the failure mode the property's `why_tests_cant` names — even when the weights happen to be feasible
+    let finalsSum := stGen.finals.foldl (fun acc col => acc + rec.point.getD col 0) 0
+    let worst := rows.foldl (fun m r => let d := r.rhs - r.val n w; if m < d then d else m) (-(10^30 : Rat))
+    let v := v.failIf (rec.point.length == gen.2 && !rows.isEmpty && decide (worst > finalsSum + (1 / 10^6) * (1 + maxAbs rec.point)))
+      s!"LinearProgramming lp_finals_below_true_max finals_sum={ratStr finalsSum} true_max={ratStr worst}"
     let objW := dotN n c w
     let v := v.failIf (decide (objW > opt + tol7 * (1 + absQ opt))) s!"LinearProgramming objective_not_minimal{sfx} objective={ratStr objW} flat_optimum={ratStr opt}"
     -- model of the tail of operator() (g *= γ·v; plusEqual(g, R)) on the library's own weights vs the returned Q, basis by basis
